@@ -714,7 +714,7 @@ EVLOG = z3.ArraySort(z3.IntSort(), ValS)
 declare_ghost("evallog", EVLOG)  # the design vectors handed to EvaluationProblem.evaluate_functions, in call order
 declare_ghost("evallog_n", z3.IntSort())
 DOE3 = DOE + "#c03"
-schema(DOE3, {"samples": TList(TNd), "_BaseDOELibrary__compute_jacobians": TBool, "_BaseDOELibrary__output_functions": TVal,
+schema(DOE3, {"samples": TList(TNd), "unit_samples": TList(TNd), "_BaseDOELibrary__compute_jacobians": TBool, "_BaseDOELibrary__output_functions": TVal,
               "_BaseDOELibrary__jacobian_functions": TVal}, bases=[DRV3])
 EVAL = TTuple(TVal, TVal)
 _RUN_MODIFIES = ("self._problem.database", "self._problem.database._Database__hdf_database", "self._problem.evaluation_counter", "self._problem.design_space",
@@ -1108,3 +1108,358 @@ class ComputeOutputNoDatabase(_NoDatabaseEntryPoint, E.ComputeOutput):
 @register
 class ComputeJacobianNoDatabase(_NoDatabaseEntryPoint, E.ComputeJacobian):
     pass
+
+
+# ---------------------------------------------------------------------------- parallel DOE branch: generation order frozen before the workers run
+import ast as _ast  # noqa: E402
+
+from pyvc import plug_c03 as _P3  # noqa: E402
+from pyvc.contract import View  # noqa: E402
+from pyvc.plug_c03 import TFieldOfSelf  # noqa: E402
+
+first_index = z3.Function("c03_first_index", HNd.sort(), z3.IntSort())  # index of the first sample with this key (definitional axiom below)
+task_ok = z3.Function("c03_task_ok", z3.IntSort(), z3.BoolSort())  # the worker evaluated sample i without raising
+task_data = z3.Function("c03_task_data", z3.IntSort(), OUTS.sort())  # its outputs ...
+task_jac = z3.Function("c03_task_jac", z3.IntSort(), OUTS.sort())  # ... and Jacobians (dictionaries name -> value)
+
+
+def skey(S_, j):
+    """Database key of sample j (content of the physical sample)."""
+    return E.key_of(S_.elems[j])
+
+
+def first_index_axiom(S_):
+    l = z3.Int("l!fi")
+    return z3.ForAll([l], z3.Implies(z3.And(0 <= l, l < S_.n), z3.And(0 <= first_index(skey(S_, l)), first_index(skey(S_, l)) <= l,
+                                                                     skey(S_, first_index(skey(S_, l))) == skey(S_, l))), patterns=[first_index(skey(S_, l))])
+
+
+def grad_name(nm):
+    return str_concat(str_lit("@"), nm)
+
+
+def generation_order(D0, D, S_, k):
+    """Among the first k samples: the keys that were not in the database before the run stand in the order of their first occurrences."""
+    i, j = z3.Int("i!go"), z3.Int("j!go")
+    return z3.ForAll([i, j], z3.Implies(z3.And(0 <= i, i < j, j < k, z3.Not(D0.has(skey(S_, i))), z3.Not(D0.has(skey(S_, j))), first_index(skey(S_, j)) == j,
+                                               D.has(skey(S_, i)), D.has(skey(S_, j))),
+                                        D.pos[skey(S_, i)] < D.pos[skey(S_, j)]), patterns=[z3.MultiPattern(D.pos[skey(S_, i)], D.pos[skey(S_, j)])])
+
+
+def registered(D0, D, S_, k):
+    j = z3.Int("j!rg")
+    p = z3.Const("p!rg", HNd.sort())
+    return [("every-sample-so-far-has-an-entry", z3.ForAll([j], z3.Implies(z3.And(0 <= j, j < k), D.has(skey(S_, j))), patterns=[D.member[skey(S_, j)]])),
+            ("new-keys-are-sample-keys", z3.ForAll([p], z3.Implies(z3.And(D.has(p), z3.Not(D0.has(p))),
+                                                                   z3.And(0 <= first_index(p), first_index(p) < k, skey(S_, first_index(p)) == p)), patterns=[D.member[p]])),
+            ("new-keys-in-generation-order", generation_order(D0, D, S_, k)),
+            ("existing-keys-keep-their-position", z3.ForAll([p], z3.Implies(D0.has(p), z3.And(D.has(p), D.pos[p] == D0.pos[p])), patterns=[D.pos[p], D0.pos[p]])),
+            ("db-wf", db_wf(D))]
+
+
+def _prereg_anchor():
+    """Iterable of the pre-registration loop, read from the REAL source: the first `for` of _run whose body is `database.store(<target>, {})`.
+    (The invariant below is stated over `self.samples` whatever is iterated: iterating something else breaks the invariant, not the anchor.)"""
+    fn = S.load_function(DOE + "._run").node
+    loops = sorted((x for x in _ast.walk(fn) if isinstance(x, (_ast.For, _ast.While))), key=lambda x: (x.lineno, x.col_offset))
+    for k, lp in enumerate(loops):
+        if isinstance(lp, _ast.For) and len(lp.body) == 1 and isinstance(lp.body[0], _ast.Expr) and isinstance(lp.body[0].value, _ast.Call) \
+                and _ast.unparse(lp.body[0].value.func).endswith(".store") and len(lp.body[0].value.args) == 2 and _ast.unparse(lp.body[0].value.args[1]) == "{}":
+            return k, _ast.unparse(lp.iter)
+    return 99, "self.samples"  # no such loop: no invariant is attached (the precondition of the parallel execution then fails)
+
+
+def _prereg_inv(c, k):
+    D0, D = db_of(c.old.problem), db_of(c.new.problem)
+    d0, d1 = c.old.problem.database, c.new.problem.database
+    return registered(D0, D, c.old.self.samples, k) + [
+        ("samples-kept", same_list(c.old.self.samples, c.new.self.samples)),
+        ("new-iter-listeners-kept", same_list(d0._Database__new_iter_listeners, d1._Database__new_iter_listeners)),
+        ("store-listeners-kept", same_list(d0._Database__store_listeners, d1._Database__store_listeners))]
+
+
+_DB_MODIFIES = ("self._problem.database", "self._problem.database._Database__hdf_database", "ghost:calllog", "ghost:calllog_n")
+
+
+def _store_inv(c, k):
+    """After k Jacobians: `data` still has the outputs it had, the gradient names of the first k Jacobians, and did not shrink."""
+    d_in = c.pre_locals["data"]
+    d = c.locals["data"]
+    jac = c.pre_locals["jacobian_data"]
+    nm = z3.Const("nm!si", TStr.sort())
+    j = z3.Int("j!si")
+    return [("outputs-kept", z3.ForAll([nm], z3.Implies(d_in.has(nm), d.has(nm)), patterns=[d.member[nm]])),
+            ("output-values-kept", z3.ForAll([nm], z3.Implies(z3.And(d_in.has(nm), z3.ForAll([j], z3.Implies(z3.And(0 <= j, j < jac.n), grad_name(jac.keys[j]) != nm))),
+                                                              d.vals[nm] == d_in.vals[nm]), patterns=[d.vals[nm]])),
+            ("gradients-added", z3.ForAll([j], z3.Implies(z3.And(0 <= j, j < k), d.has(grad_name(jac.keys[j]))), patterns=[jac.keys[j]])),
+            ("not-smaller", d.n >= d_in.n)]
+
+
+@register
+class DoeStoreInDatabase(Contract):
+    """The parent-side callback of the parallel DOE: the outputs of sample `index` (and its Jacobians under the gradient names) are stored under
+    the key of the PHYSICAL sample self.samples[index]; nothing else changes in the database (order kept, a new key would go last)."""
+
+    targets = (DOE + ".__store_in_database",)
+    prop = ("C03",)
+    c03 = True
+    self_schema = DOE3
+    params = {"index": TInt, "output_and_jacobian_data": TTuple(OUTS, OUTS)}
+    modifies = _DB_MODIFIES + ("output_and_jacobian_data#0",)  # (the caller's outputs dictionary receives the gradient entries in place)
+    loops = {0: LoopSpec(anchor="jacobian_data.items()", inv=_store_inv, modifies=("data",), local_types={"output_name": TStr, "jacobian": TVal})}
+
+    def requires(self, c):
+        return [("index-of-a-sample", z3.And(0 <= c.old.index, c.old.index < c.old.self.samples.n)), ("db-wf", db_wf(db_of(c.old.self._problem)))]
+
+    def ensures(self, c):
+        D0, D1 = db_of(c.old.self._problem), db_of(c.new.self._problem)
+        S_ = c.old.self.samples
+        x = skey(S_, c.old.index)
+        dv, jv = (View(c._old_heap, r, c.st) for r in c.arg("output_and_jacobian_data"))  # the two dictionaries as they were at entry
+        return stored_effect(D0, D1, x, OUTS.dt.mk(dv.member, dv.vals, dv.n), OUTS.dt.mk(jv.member, jv.vals, jv.n))
+
+
+def stored_effect(D0, D1, x, data, jac):
+    """Effect of one callback call on the database content (data / jac: embedded dictionaries)."""
+    p = z3.Const("p!se", HNd.sort())
+    nm = z3.Const("nm!se", TStr.sort())
+    dm, dv, jm = OUTS.acc(0)(data), OUTS.acc(1)(data), OUTS.acc(0)(jac)
+    e0, e1 = D0.get(x), D1.get(x)
+    is_grad = z3.Const("g!se", TStr.sort())
+    return [("keys", z3.ForAll([p], D1.has(p) == z3.Or(D0.has(p), p == x), patterns=[D1.member[p]])),
+            ("others-unchanged", z3.ForAll([p], z3.Implies(z3.And(D0.has(p), p != x), D1.get(p) == D0.get(p)), patterns=[D1.vals[p]])),
+            ("order-kept", z3.ForAll([p], z3.Implies(D0.has(p), D1.pos[p] == D0.pos[p]), patterns=[D1.pos[p]])),
+            ("appended-last", z3.Implies(z3.Not(D0.has(x)), D1.pos[x] == D0.n)),
+            ("size", D1.n == z3.If(D0.has(x), D0.n, D0.n + 1)),
+            ("outputs-recorded", z3.ForAll([nm], z3.Implies(dm[nm], E.o_member(e1)[nm]), patterns=[dm[nm]])),
+            ("output-values-recorded", z3.ForAll([nm], z3.Implies(z3.And(dm[nm], z3.ForAll([is_grad], z3.Implies(jm[is_grad], grad_name(is_grad) != nm))),
+                                                                  E.o_vals(e1)[nm] == dv[nm]), patterns=[E.o_vals(e1)[nm]])),
+            ("jacobians-recorded-under-gradient-names", z3.ForAll([nm], z3.Implies(jm[nm], E.o_member(e1)[grad_name(nm)]), patterns=[jm[nm]])),
+            ("earlier-outputs-kept", z3.ForAll([nm], z3.Implies(z3.And(D0.has(x), E.o_member(e0)[nm]), E.o_member(e1)[nm]), patterns=[E.o_member(e0)[nm]])),
+            ("db-wf", db_wf(D1))]
+
+
+@register
+class RemoveEmptyEntries(_Assumed):
+    targets = (DB + ".remove_empty_entries",)
+    modifies = ("self",)
+    description = ("assumed (loop deleting from the dictionary it snapshots): exactly the entries without any output are removed; the others keep their outputs and "
+                   "their relative order; listeners kept")
+
+    def ensures(self, c):
+        D0, D1 = c.old.self._Database__data, c.new.self._Database__data
+        p, q = z3.Consts("p!re q!re", HNd.sort())
+        return [("keys", z3.ForAll([p], D1.has(p) == z3.And(D0.has(p), E.o_n(D0.get(p)) != 0), patterns=[D1.member[p]])),
+                ("outputs-kept", z3.ForAll([p], z3.Implies(D1.has(p), D1.get(p) == D0.get(p)), patterns=[D1.vals[p]])),
+                ("relative-order-kept", z3.ForAll([p, q], z3.Implies(z3.And(D1.has(p), D1.has(q)), (D1.pos[p] < D1.pos[q]) == (D0.pos[p] < D0.pos[q])),
+                                                  patterns=[z3.MultiPattern(D1.pos[p], D1.pos[q])])),
+                ("listeners-kept", z3.And(same_list(c.old.self._Database__new_iter_listeners, c.new.self._Database__new_iter_listeners),
+                                          same_list(c.old.self._Database__store_listeners, c.new.self._Database__store_listeners))),
+                ("name-kept", c.new.self.name == c.old.self.name), ("db-wf", db_wf(D1))]
+
+
+@register
+class RemoveEmptyEntriesMatchesSource(Contract):
+    """Read on the REAL source: remove_empty_entries is `for x, outputs in tuple(self.items()): if not outputs: del self.__data[x]`."""
+
+    targets = ()
+    prop = ("C03",)
+    lemma = True
+
+    def lemmas(self):
+        body = [b for b in S.load_function(DB + ".remove_empty_entries").node.body if not (isinstance(b, _ast.Expr) and isinstance(b.value, _ast.Constant))]
+        ok = len(body) == 1 and isinstance(body[0], _ast.For) and _ast.unparse(body[0].target) == "(x, outputs)" and _ast.unparse(body[0].iter) == "tuple(self.items())" \
+            and len(body[0].body) == 1 and isinstance(body[0].body[0], _ast.If) and _ast.unparse(body[0].body[0].test) == "not outputs" \
+            and [_ast.unparse(b) for b in body[0].body[0].body] == ["del self.__data[x]"] and not body[0].body[0].orelse and not body[0].orelse
+        return [("removes-exactly-the-entries-without-output", z3.BoolVal(bool(ok)))]
+
+
+def executed_effect(D0, D1, S_):
+    """Database after parallel.execute(self.samples, exec_callback=[self.__store_in_database]) when every sample key is registered beforehand:
+    what n callback calls, one per successful task and in ANY order, leave behind (each clause is preserved by one call: ParallelStoreLemmas)."""
+    p = z3.Const("p!ee", HNd.sort())
+    nm = z3.Const("nm!ee", TStr.sort())
+    i = z3.Int("i!ee")
+    rng = z3.And(0 <= i, i < S_.n, task_ok(i))
+    entry = D1.get(skey(S_, i))
+    return [("keys-kept", z3.ForAll([p], D1.has(p) == D0.has(p), patterns=[D1.member[p]])),
+            ("order-kept", z3.ForAll([p], z3.Implies(D0.has(p), D1.pos[p] == D0.pos[p]), patterns=[D1.pos[p]])),
+            ("size-kept", D1.n == D0.n),
+            ("outputs-of-successful-samples-recorded", z3.ForAll([i, nm], z3.Implies(z3.And(rng, OUTS.acc(0)(task_data(i))[nm]), E.o_member(entry)[nm]),
+                                                                 patterns=[z3.MultiPattern(task_ok(i), OUTS.acc(0)(task_data(i))[nm])])),
+            ("jacobians-of-successful-samples-recorded", z3.ForAll([i, nm], z3.Implies(z3.And(rng, OUTS.acc(0)(task_jac(i))[nm]), E.o_member(entry)[grad_name(nm)]),
+                                                                   patterns=[z3.MultiPattern(task_ok(i), OUTS.acc(0)(task_jac(i))[nm])])),
+            ("recorded-outputs-only-grow", z3.ForAll([p, nm], z3.Implies(z3.And(D0.has(p), E.o_member(D0.get(p))[nm]), E.o_member(D1.get(p))[nm]), patterns=[E.o_member(D0.get(p))[nm]])),
+            ("db-wf", db_wf(D1))]
+
+
+def _parallel_execute_summary(ex, parexec, args, kwargs, lineno):
+    """Thin summary of CallableParallelExecution.execute (contract verified under C13: positional results, every callback called exactly once per
+    successful task with (index, output), in an arbitrary order) composed with the verified contract of the one callback __store_in_database."""
+    from pyvc.values import BoundMethod, ListObj, Ref, Unsupported
+
+    st = ex.st
+    me = ex.frame.env.get("self")
+    workers = parexec.workers
+    wl = st.heap.get(workers.id) if isinstance(workers, Ref) else None
+    inputs = args[0] if args else kwargs.get("inputs")
+    cbs = kwargs.get("exec_callback")
+    cbl = st.heap.get(cbs.id) if isinstance(cbs, Ref) else None
+    mev = View(st.heap, me, st)
+    if not (isinstance(inputs, Ref) and inputs.id == mev.samples.ref.id):
+        # (the tasks are the physical samples: the callback stores task i under self.samples[i])
+        ex.check(z3.BoolVal(False), "pre", "parallel-execute:the-tasks-are-the-samples", lineno, aux=True)
+        return TList(TVal).fresh(st, "parallel_outputs")  # (no summary applies: nothing is known about the database afterwards)
+    store_cb = bound_method_term(me.id, "__store_in_database")
+    one_cb = isinstance(cbl, ListObj) and not cbl.is_empty_literal and z3.is_int_value(z3.simplify(cbl.n)) and z3.simplify(cbl.n).as_long() == 1 \
+        and z3.simplify(cbl.elems[0]).eq(store_cb)
+    worker_ok = (isinstance(wl, ListObj) and z3.is_int_value(z3.simplify(wl.n)) and z3.simplify(wl.n).as_long() == 1
+                 and z3.simplify(wl.elems[0]).eq(bound_method_term(me.id, "_worker"))) or \
+        (isinstance(workers, tuple) and len(workers) == 1 and isinstance(workers[0], BoundMethod) and workers[0].recv == me
+         and workers[0].finfo is not None and workers[0].finfo.node.name == "_worker")
+    if not one_cb:
+        # use_database: the results must be stored by the callback (user callbacks - default none - are not covered)
+        ex.check(z3.BoolVal(False), "pre", "parallel-execute:the-callbacks-are-exactly-the-store-callback", lineno, aux=True)
+        for path in _DB_MODIFIES:
+            ex.havoc_path(path, {"self": me})
+        return TList(TVal).fresh(st, "parallel_outputs")
+    if not worker_ok:
+        raise Unsupported("parallel.execute: only the pattern workers=[self._worker] is summarised")
+    S_ = mev.samples
+    D0v = db_of(mev._problem)
+    j = z3.Int("j!pe")
+    ex.check(z3.ForAll([j], z3.Implies(z3.And(0 <= j, j < S_.n), D0v.has(skey(S_, j))), patterns=[D0v.member[skey(S_, j)]]), "pre",
+             "parallel-execute:every-sample-has-a-registered-entry", lineno, aux=True)
+    ex.check(db_wf(D0v), "pre", "parallel-execute:db-wf", lineno, aux=True)
+    old = st.snapshot()
+    d_old = View(old, me, st)._problem.database
+    for path in _DB_MODIFIES:
+        ex.havoc_path(path, {"self": me})
+    d_new = View(st.heap, me, st)._problem.database
+    for _, f in executed_effect(d_old._Database__data, d_new._Database__data, View(old, me, st).samples):
+        st.assume(f)
+    st.assume(same_list(d_old._Database__new_iter_listeners, d_new._Database__new_iter_listeners))
+    st.assume(same_list(d_old._Database__store_listeners, d_new._Database__store_listeners))
+    st.assume(d_new.name == d_old.name)
+    ex.assumed.add("CallableParallelExecution.execute(self.samples, exec_callback=[self.__store_in_database]): summary of its C13 contract (each callback exactly once per "
+                   "successful task with the matching (index, output), arbitrary order; c03_task_ok / c03_task_data / c03_task_jac name the outcome of task i) "
+                   "composed with the verified contract of __store_in_database; the resulting clauses are those preserved by every single call (ParallelStoreLemmas); "
+                   "listeners notified by the stores are not tracked in this branch")
+    ex.callee_contracts.add(_P3.CPE + ".execute (summary)")
+    return TList(TVal).fresh(st, "parallel_outputs")
+
+
+_P3.PAREXEC_SUMMARY["execute"] = _parallel_execute_summary
+_PREREG_ORDINAL, _PREREG_ANCHOR = _prereg_anchor()
+
+
+@register
+class DoeRunParallel(Contract):
+    """Parallel DOE (n_processes > 1, use_database): the samples are registered in generation order BEFORE the workers run (loop invariant), the
+    callback only fills existing entries, and removing the empty ones keeps the relative order: the recorded samples stand in generation order,
+    each with the outputs of its own evaluation."""
+
+    targets = (DOE + "._run",)
+    variant = "parallel"
+    prop = ("C03",)
+    c03 = True
+    c03_parallel = True
+    self_schema = DOE3
+    params = {"problem": TFieldOfSelf(DOE, "_problem"), "eval_jac": TBool, "n_processes": TInt, "wait_time_between_samples": TReal, "use_database": TBool}
+    modifies = ("self",) + _DB_MODIFIES
+    loops = {_PREREG_ORDINAL: LoopSpec(anchor=_PREREG_ANCHOR, inv=_prereg_inv, modifies=_DB_MODIFIES, local_types={"sample": TNd})}
+
+    def axioms(self, c):
+        return [("first-index-definition", first_index_axiom(c.old.self.samples))]
+
+    def requires(self, c):
+        return [("parallel", c.old.n_processes > 1), ("database-used", c.old.use_database), ("db-wf", db_wf(db_of(c.old.problem)))]
+
+    def ensures(self, c):
+        D0, D1 = db_of(c.old.problem), db_of(c.new.problem)
+        S_ = c.old.self.samples
+        i = z3.Int("i!rp")
+        nm = z3.Const("nm!rp", TStr.sort())
+        rng = z3.And(0 <= i, i < S_.n, task_ok(i))
+        e = D1.get(skey(S_, i))
+        return [("evaluated-samples-are-recorded-with-their-outputs", z3.ForAll([i, nm], z3.Implies(z3.And(rng, OUTS.acc(0)(task_data(i))[nm]),
+                                                                                                    z3.And(D1.has(skey(S_, i)), E.o_member(e)[nm])),
+                                                                                patterns=[z3.MultiPattern(task_ok(i), OUTS.acc(0)(task_data(i))[nm])])),
+                ("evaluated-samples-are-recorded-with-their-jacobians", z3.ForAll([i, nm], z3.Implies(z3.And(rng, OUTS.acc(0)(task_jac(i))[nm]),
+                                                                                                      z3.And(D1.has(skey(S_, i)), E.o_member(e)[grad_name(nm)])),
+                                                                                  patterns=[z3.MultiPattern(task_ok(i), OUTS.acc(0)(task_jac(i))[nm])])),
+                ("recorded-samples-in-generation-order", generation_order(D0, D1, S_, S_.n)),
+                ("only-sample-keys-are-added", _only_sample_keys(D0, D1, S_)),
+                ("no-empty-placeholder-is-left", _no_empty_new_entry(D0, D1)),
+                ("samples-kept", same_list(S_, c.new.self.samples)),
+                ("db-wf", db_wf(D1))]
+
+
+def _no_empty_new_entry(D0, D1):
+    p = z3.Const("p!ne", HNd.sort())
+    return z3.ForAll([p], z3.Implies(z3.And(D1.has(p), z3.Not(D0.has(p))), E.o_n(D1.get(p)) != 0), patterns=[D1.member[p]])
+
+
+def _only_sample_keys(D0, D1, S_):
+    p = z3.Const("p!os", HNd.sort())
+    return z3.ForAll([p], z3.Implies(z3.And(D1.has(p), z3.Not(D0.has(p))), z3.And(0 <= first_index(p), first_index(p) < S_.n, skey(S_, first_index(p)) == p)), patterns=[D1.member[p]])
+
+
+@register
+class ParallelStoreLemmas(Contract):
+    """Why the clauses of `executed_effect` hold for EVERY completion order: induction over the receptions.  Reception m handles task perm(m); if
+    the task succeeded, __store_in_database is called once with (perm(m), its outputs) and changes the database as its verified contract says
+    (`stored_effect`), otherwise nothing changes.  All sample keys are registered at reception 0.  Inv(m) = the clauses of executed_effect for the
+    tasks received so far; Inv(0) holds, Inv(m) => Inv(m+1), and with perm a bijection of [0, N) Inv(N) covers every task."""
+
+    targets = ()
+    prop = ("C03",)
+    lemma = True
+
+    def lemmas(self):
+        K, N_ = HNd.sort(), TStr.sort()
+        I = z3.IntSort()
+        mem = z3.Function("ps_mem", I, K, z3.BoolSort())
+        pos = z3.Function("ps_pos", I, K, I)
+        size = z3.Function("ps_n", I, I)
+        names = z3.Function("ps_names", I, K, N_, z3.BoolSort())  # recorded output names of an entry at reception m
+        key = z3.Function("ps_key", I, K)
+        perm, inv = z3.Function("ps_perm", I, I), z3.Function("ps_inv", I, I)
+        ok = z3.Function("ps_ok", I, z3.BoolSort())
+        dn, jn = z3.Function("ps_data_names", I, N_, z3.BoolSort()), z3.Function("ps_jac_names", I, N_, z3.BoolSort())
+        m, r, i, N = z3.Ints("m r i N")
+        p = z3.Const("p", K)
+        nm = z3.Const("nm", N_)
+        t = perm(m)
+        x = key(t)
+        registered0 = z3.ForAll([i], z3.Implies(z3.And(0 <= i, i < N), mem(0, key(i))), patterns=[key(i)])
+        call = z3.And(  # stored_effect(D_m, D_m+1, x, data(t), jac(t)), name by name
+            z3.ForAll([p], mem(m + 1, p) == z3.Or(mem(m, p), p == x), patterns=[mem(m + 1, p)]),
+            z3.ForAll([p, nm], z3.Implies(z3.And(mem(m, p), p != x), names(m + 1, p, nm) == names(m, p, nm)), patterns=[names(m + 1, p, nm)]),
+            z3.ForAll([p], z3.Implies(mem(m, p), pos(m + 1, p) == pos(m, p)), patterns=[pos(m + 1, p)]),
+            size(m + 1) == z3.If(mem(m, x), size(m), size(m) + 1),
+            z3.ForAll([nm], z3.Implies(dn(t, nm), names(m + 1, x, nm)), patterns=[dn(t, nm)]),
+            z3.ForAll([nm], z3.Implies(jn(t, nm), names(m + 1, x, grad_name(nm))), patterns=[jn(t, nm)]),
+            z3.ForAll([nm], z3.Implies(z3.And(mem(m, x), names(m, x, nm)), names(m + 1, x, nm)), patterns=[names(m, x, nm)]))
+        skip = z3.And(z3.ForAll([p], mem(m + 1, p) == mem(m, p), patterns=[mem(m + 1, p)]), z3.ForAll([p], pos(m + 1, p) == pos(m, p), patterns=[pos(m + 1, p)]),
+                      size(m + 1) == size(m), z3.ForAll([p, nm], names(m + 1, p, nm) == names(m, p, nm), patterns=[names(m + 1, p, nm)]))
+        perm_range = z3.ForAll([r], z3.Implies(z3.And(0 <= r, r < N), z3.And(0 <= perm(r), perm(r) < N)), patterns=[perm(r)])  # receptions name tasks
+        step = z3.And(0 <= m, m < N, perm_range, z3.If(ok(t), call, skip))
+
+        def Inv(q):
+            return z3.And(
+                z3.ForAll([p], mem(q, p) == mem(0, p), patterns=[mem(q, p)]),
+                z3.ForAll([p], z3.Implies(mem(0, p), pos(q, p) == pos(0, p)), patterns=[pos(q, p)]),
+                size(q) == size(0),
+                z3.ForAll([p, nm], z3.Implies(z3.And(mem(0, p), names(0, p, nm)), names(q, p, nm)), patterns=[names(0, p, nm)]),
+                z3.ForAll([r, nm], z3.Implies(z3.And(0 <= r, r < q, ok(perm(r)), dn(perm(r), nm)), names(q, key(perm(r)), nm)), patterns=[dn(perm(r), nm)]),
+                z3.ForAll([r, nm], z3.Implies(z3.And(0 <= r, r < q, ok(perm(r)), jn(perm(r), nm)), names(q, key(perm(r)), grad_name(nm))), patterns=[jn(perm(r), nm)]))
+
+        bijection = z3.ForAll([i], z3.Implies(z3.And(0 <= i, i < N), z3.And(0 <= inv(i), inv(i) < N, perm(inv(i)) == i)), patterns=[inv(i)])
+        every_task = z3.And(
+            z3.ForAll([i, nm], z3.Implies(z3.And(0 <= i, i < N, ok(i), dn(i, nm)), names(N, key(i), nm)), patterns=[z3.MultiPattern(inv(i), dn(i, nm))]),
+            z3.ForAll([i, nm], z3.Implies(z3.And(0 <= i, i < N, ok(i), jn(i, nm)), names(N, key(i), grad_name(nm))), patterns=[z3.MultiPattern(inv(i), jn(i, nm))]))
+        # the inductive step needs one more invariant: the keys of the tasks stay registered (a consequence of the first clause of Inv and registered0)
+        return [("any-completion-order:base", Inv(z3.IntVal(0))),
+                ("any-completion-order:step", z3.Implies(z3.And(registered0, step, Inv(m)), Inv(m + 1))),
+                ("any-completion-order:every-task-is-covered", z3.Implies(z3.And(Inv(N), bijection), every_task))]
